@@ -292,7 +292,8 @@ def splice(text, unit):
     loops = unit.get("loops", {})
     lstart = unit.get("loop_body_start", {})
     lafter = unit.get("after_loop", {})
-    for ordinal in sorted(set(loops) | set(lstart) | set(lafter), reverse=True):
+    lend = unit.get("loop_body_end", {})
+    for ordinal in sorted(set(loops) | set(lstart) | set(lafter) | set(lend), reverse=True):
         bo, bc = fn_body_open(text, unit.get("fn"))
         m = L.mask(text)
         kws = [mt for mt in LOOP_RE.finditer(m, bo, bc)]
@@ -304,10 +305,39 @@ def splice(text, unit):
         kc = L.match_close(m, k)
         if ordinal in lafter:
             text = text[:kc + 1] + "\n" + lafter[ordinal].rstrip() + "\n" + text[kc + 1:]
+        if ordinal in lend:
+            text = text[:kc] + "\n" + lend[ordinal].rstrip() + "\n" + text[kc:]
         if ordinal in lstart:
             text = text[:k + 1] + "\n" + lstart[ordinal].rstrip() + "\n" + text[k + 1:]
         if ordinal in loops:
             text = text[:k] + "\n" + loops[ordinal].rstrip() + "\n" + text[k:]
+    # proof text after the n-th top-level `if ... {} else {}` statement of the fn body (ordinal anchor)
+    for ordinal in sorted(unit.get("after_top_if", {}), reverse=True):
+        bo, bc = fn_body_open(text, unit.get("fn"))
+        m = L.mask(text)
+        tops, depth, k = [], 0, bo + 1
+        while k < bc:
+            ch = m[k]
+            if ch in "{([":
+                depth += 1
+            elif ch in "})]":
+                depth -= 1
+            elif depth == 0 and m.startswith("if", k) and not (m[k - 1].isalnum() or m[k - 1] == "_") and not (m[k + 2].isalnum() or m[k + 2] == "_"):
+                # skip `else if` continuations
+                if not re.search(r"\belse\s*$", m[bo:k]):
+                    tops.append(k)
+            k += 1
+        if len(tops) <= ordinal:
+            raise Lost(f"top-level if #{ordinal} not found")
+        k = tops[ordinal]
+        while True:
+            b = L.depth0_find(m, k, bc, "{")
+            e = L.match_close(m, b)
+            nxt = re.match(r"\s*else\b", m[e + 1:bc])
+            if not nxt:
+                break
+            k = e + 1 + nxt.end()
+        text = text[:e + 1] + "\n" + unit["after_top_if"][ordinal].rstrip() + "\n" + text[e + 1:]
     if unit.get("body_start"):
         bo, _ = fn_body_open(text, unit.get("fn"))
         text = text[:bo + 1] + "\n" + unit["body_start"].rstrip() + "\n" + text[bo + 1:]
